@@ -128,6 +128,31 @@ def relations(rng, tier, rpt):
         back = Bip32PathParser.Parse(po.ToStr())
         if back.ToList() != po.ToList() or back.IsAbsolute() != po.IsAbsolute():
             rep("parse(print(p)) != p", po.ToStr(), str(back.ToList()), str(po.ToList()))
+    # compositionality of the WHOLE object (extended keys under non-default version bytes included), through private and public splits
+    from harness.props.c05 import key_net_versions
+    from bip_utils import Bip32KeyNetVersions
+    kvs = [Bip32KeyNetVersions(a, b) for a, b in key_net_versions()]
+    for i in range(8 if tier == "quick" else 200):
+        c = ("secp256k1", "nist256p1")[i % 2]
+        kv = kvs[rng.randrange(len(kvs))]
+        m = CLS[c].FromSeed(rand_seed(rng), kv)
+        pq = [rand_index(rng, False) for _ in range(rng.randrange(2, 5))]
+        cut = rng.randrange(1, len(pq))
+
+        def full(o):
+            return node_out(o) + " " + o.PublicKey().ToExtended() + " " + (o.PrivateKey().ToExtended() if not o.IsPublicOnly() else "-") + " " + o.KeyNetVersions().Public().hex()
+        whole = m.DerivePath(Bip32Path(pq, False))
+        a = m.DerivePath(Bip32Path(pq[:cut], False)).DerivePath(Bip32Path(pq[cut:], False))
+        n += 1
+        if full(a) != full(whole):
+            rep("p then q differs from p++q under non-default key net versions (private)", "%s %s" % (c, pq), full(a)[-140:], full(whole)[-140:])
+        mid = m.DerivePath(Bip32Path(pq[:cut], False))
+        mid.ConvertToPublic()
+        b = mid.DerivePath(Bip32Path(pq[cut:], False))
+        wp = whole.PublicKey().ToExtended()
+        if b.PublicKey().ToExtended() != wp or b.KeyNetVersions().Public() != kv.Public():
+            rep("p then (public) q differs from p++q under non-default key net versions: the publicly derived child does not carry the parent's version bytes",
+                "%s %s versions=%s" % (c, pq, kv.Public().hex()), b.PublicKey().ToExtended(), wp)
     # derived objects are independent of each other and of later changes to their siblings: converting one child to public-only must not
     # change what the parent hands out next, and "p then q" keeps working through an index whose child was converted
     from bip_utils import Bip32KholawEd25519
@@ -184,6 +209,16 @@ def relations(rng, tier, rpt):
         c = sview(parent.ChildKey(j1).ChildKey(j2).ChildKey(j3))
         if not (a == b == c):
             rep("Substrate: derive p then q / p++q / junction chain disagree", "%s %s" % (seed.hex(), j1 + j2 + j3), str((a, b, c)), str(a))
+        # single-element APIs accept exactly one junction: text with a further slash is a path, not an element
+        for bad_elem in (j1 + j2, j1 + "/", "/a/b", "//a/b", "/a//b", "a", "", "/", "//", "///a"):
+            for what, f in (("SubstratePathElem", lambda: SubstratePathElem(bad_elem)), ("Substrate.ChildKey", lambda: parent.ChildKey(bad_elem)),
+                            ("SubstratePath([elem])", lambda: SubstratePath([bad_elem])), ("SubstratePath.AddElem", lambda: SubstratePath().AddElem(bad_elem))):
+                try:
+                    r = f()
+                    rep("%s accepts %r, which is not a single junction" % (what, bad_elem), bad_elem, str(getattr(r, "ToStr", lambda: r)() if hasattr(r, "ToStr") else "ok"), "SubstratePathError")
+                except Exception as ex:  # noqa
+                    if type(ex).__name__ != "SubstratePathError":
+                        rep("%s refuses %r with the wrong error" % (what, bad_elem), bad_elem, type(ex).__name__, "SubstratePathError")
         pth = SubstratePath([SubstratePathElem(j1)])
         p_before = pth.ToStr()
         q1, q2 = pth.AddElem(j2).ToStr(), pth.AddElem(j3).ToStr()
